@@ -182,8 +182,33 @@ func messagesFor(scn int) [][]byte {
 		sum %= 256
 		out = append(out, '1', '0', '=', byte('0'+sum/100), byte('0'+sum/10%10), byte('0'+sum%10), 1)
 		return [][]byte{out, m}
+	case 5:
+		// C18: tags that have the CheckSum tag as decimal suffix (210, 1010) or prefix (101, 100),
+		// each with unconstrained value bytes (the solver may place "10=" inside them), in front of
+		// a second ordinary message; the genuine trailer is the only segment that starts with "10="
+		mid := []byte("35=D\x01210=")
+		mid = append(mid, zz.Bytes(3)...)
+		mid = append(mid, []byte("\x01101=")...)
+		mid = append(mid, zz.Bytes(3)...)
+		mid = append(mid, []byte("\x011010=")...)
+		mid = append(mid, zz.Bytes(4)...)
+		mid = append(mid, []byte("\x01100=10=\x01")...)
+		return [][]byte{frameByHand(mid), tinyMsg('0', zz.Bytes(3))}
 	}
 	return [][]byte{tinyMsg(zz.Bytes(1)[0], zz.Bytes(3)), tinyMsg(zz.Bytes(1)[0], zz.Bytes(2)), tinyMsg(zz.Bytes(1)[0], zz.Bytes(3))}
+}
+
+// frameByHand puts BeginString/BodyLength in front of a body and the three-digit CheckSum behind it.
+func frameByHand(mid []byte) []byte {
+	out := append([]byte("8=F\x019="), strconv.Itoa(len(mid))...)
+	out = append(out, 1)
+	out = append(out, mid...)
+	sum := 0
+	for _, c := range out {
+		sum += int(c)
+	}
+	sum %= 256
+	return append(out, '1', '0', '=', byte('0'+sum/100), byte('0'+sum/10%10), byte('0'+sum%10), 1)
 }
 
 // H_C04_reader: Conn.runReader over the real bufio.Reader on a scripted connection.
